@@ -16,6 +16,19 @@
 (*                       have NO GEOMETRY (SoundEvent(geometry=None))]     *)
 (* Whether an event has a geometry is nobody's business but the comparison *)
 (* function's -- which is arbitrary -- so no clause mentions ng.           *)
+(*                cl |-> <<>>, or the sizes of DISJOINT CLIQUES laid out one  *)
+(*                       after the other over the positions (then e = <<>>   *)
+(*                       and id is the identity): the relation is "same     *)
+(*                       clique", and the components are the cliques -- for  *)
+(*                       lists of hundreds of densely similar events, where  *)
+(*                       neither an edge list nor a closure is affordable    *)
+(*                       (LawCliques checks the shortcut on small ones),     *)
+(*                sub |-> sequence of the identifiers of the events that   *)
+(*                       are instances of a USER SUBCLASS of SoundEvent    *)
+(*                       (with a field of its own): still input events;    *)
+(*                       no clause mentions sub.  An output member counts  *)
+(*                       as the input event a only if it equals it, class  *)
+(*                       included; otherwise the binder reports 0,         *)
 (*                gd |-> TRUE when the comparison function also LOOKS at   *)
 (*                       its arguments: it answers "similar" only if each  *)
 (*                       argument has / lacks a geometry exactly as the     *)
@@ -48,13 +61,22 @@ EXTENDS Lattice, TLC
 Nodes(c) == 1..c.n
 Ids(c)   == Range(c.id)
 IdEdge(c, a, b) == \E k \in DOMAIN c.e : c.e[k] = <<a, b>> \/ c.e[k] = <<b, a>>
-Edge(c, i, j)   == i # j /\ IdEdge(c, c.id[i], c.id[j])
+HasCliques(c)   == Len(c.cl) > 0
+RECURSIVE SumTo(_, _)
+SumTo(sq, k)    == IF k = 0 THEN 0 ELSE sq[k] + SumTo(sq, k - 1)
+\* the clique that holds position i: the first one whose sizes add up to at least i
+BlockOf(c, i)   == SetMin({b \in DOMAIN c.cl : SumTo(c.cl, b) >= i})
+BlockF(c)       == TLCEval([i \in 1..c.n |-> BlockOf(c, i)])
+Edge(c, i, j)   == i # j /\ (IF HasCliques(c) THEN BlockOf(c, i) = BlockOf(c, j) ELSE IdEdge(c, c.id[i], c.id[j]))
 Mult(c, a)      == Cardinality({i \in Nodes(c) : c.id[i] = a})          \* how often event a occurs in the list
 RetTypes == {"bool", "np_bool", "int"}
 Guises == {"function", "lambda", "partial", "method", "object", "falsy_len", "falsy_bool"}
 Falsy(gz) == gz \in {"falsy_len", "falsy_bool"}
 WellFormed(c)   == /\ Len(c.id) = c.n /\ c.ret \in RetTypes /\ Range(c.ng) \subseteq Ids(c)
-                   /\ c.guise \in Guises /\ c.gd \in BOOLEAN
+                   /\ c.guise \in Guises /\ c.gd \in BOOLEAN /\ Range(c.sub) \subseteq Ids(c)
+                   /\ (HasCliques(c) => /\ SumTo(c.cl, Len(c.cl)) = c.n /\ Len(c.e) = 0
+                                         /\ \A b \in DOMAIN c.cl : c.cl[b] >= 1
+                                         /\ \A i \in 1..c.n : c.id[i] = i)
                    /\ \A k \in DOMAIN c.e : /\ c.e[k][1] \in Ids(c) /\ c.e[k][2] \in Ids(c) /\ c.e[k][1] <= c.e[k][2]
                                             /\ (c.e[k][1] = c.e[k][2] => Mult(c, c.e[k][1]) >= 2)
 
@@ -68,7 +90,10 @@ Grow(nb, S, k) ==
     IF k = 0 THEN S
     ELSE LET T == S \cup UNION {nb[x] : x \in S}
          IN  IF T = S THEN S ELSE Grow(nb, T, k - 1)
-CompF(c) == LET nb == NbF(c) IN TLCEval([i \in 1..c.n |-> Grow(nb, {i}, c.n)])
+CompClosure(c) == LET nb == NbF(c) IN TLCEval([i \in 1..c.n |-> Grow(nb, {i}, c.n)])
+\* with cliques the components are the cliques themselves (no closure needed)
+CompCliques(c) == LET bf == BlockF(c) IN TLCEval([i \in 1..c.n |-> {j \in 1..c.n : bf[j] = bf[i]}])
+CompF(c) == IF HasCliques(c) THEN CompCliques(c) ELSE CompClosure(c)
 Connected(c, i, j) == j \in CompF(c)[i]
 
 (***************************************************************************)
@@ -95,7 +120,9 @@ LawLeast(c) ==
                    (\A i, j \in Nodes(c) : Edge(c, i, j) => f[i] = f[j])
                    => \A i, j \in Nodes(c) : j \in cf[i] => f[i] = f[j]
 LawWarshall(c) == LET cf == CompF(c)  w == WF(c, c.n) IN \A i, j \in Nodes(c) : (j \in cf[i]) <=> w[<<i, j>>]
-LawNoEdgeNoLink(c) == Len(c.e) = 0 => LET cf == CompF(c) IN \A i, j \in Nodes(c) : (j \in cf[i]) <=> i = j
+LawNoEdgeNoLink(c) == (Len(c.e) = 0 /\ ~HasCliques(c)) => LET cf == CompF(c) IN \A i, j \in Nodes(c) : (j \in cf[i]) <=> i = j
+\* the clique shortcut is the closure
+LawCliques(c) == HasCliques(c) => CompCliques(c) = CompClosure(c)
 \* twins: the relation on positions cannot tell them apart; twins that are similar to anything share a component
 LawTwins(c) == LET cf == CompF(c) IN
     \A i, j \in Nodes(c) : (i # j /\ c.id[i] = c.id[j]) =>
@@ -133,7 +160,16 @@ ClauseHolds(cl, c, seqs, calls) ==
                                      Cardinality({p \in UNION {{<<s, k>> : k \in DOMAIN seqs[s]} : s \in DOMAIN seqs} :
                                                     seqs[p[1]][p[2]] = a}) = Mult(c, a)
       [] cl = "NoEmptySequence" -> \A s \in DOMAIN seqs : Len(seqs[s]) > 0
-      [] cl = "OrderKept"       -> \A s \in DOMAIN seqs : IsSubseq(seqs[s], 1, c.id, 1)
+      \* (without twins every event has one position, and "read off at increasing positions" needs no recursion -- TLC's
+      \*  stack does not carry a recursion over hundreds of members)
+      [] cl = "OrderKept"       ->
+             IF Cardinality(Ids(c)) = c.n
+             THEN LET ids == Ids(c)
+                      pf == TLCEval([a \in ids |-> CHOOSE p \in 1..c.n : c.id[p] = a])
+                  IN  \A s \in DOMAIN seqs :
+                         /\ \A k \in DOMAIN seqs[s] : seqs[s][k] \in ids
+                         /\ \A k \in 1..(Len(seqs[s]) - 1) : pf[seqs[s][k]] < pf[seqs[s][k + 1]]
+             ELSE \A s \in DOMAIN seqs : IsSubseq(seqs[s], 1, c.id, 1)
       \* the returned sequences are exactly the components: same bags of events, with the same multiplicities
       [] cl = "SameSequenceIffConnected" ->
              LET cf == CompF(c)  R == Roots(c, cf) IN
